@@ -344,6 +344,11 @@ class Resolver:
             if isinstance(d, ast.Name) and d.id in ("staticmethod", "classmethod", "property"):
                 continue
             dk = self.kinds(d, None, fobj.module)
+            if isinstance(d, ast.Call):
+                # @functools.lru_cache(maxsize=...) and the like: a decorator factory of the standard library wraps
+                fk = self.kinds(d.func, None, fobj.module)
+                if fk and all(k[0] == "ext" and k[1].split(".")[0] in ("functools", "contextlib", "typing") for k in fk):
+                    dk = fk
             new = set()
             for k in dk:
                 if k[0] == "class":
